@@ -294,13 +294,17 @@ def gen_ops(rng, ctx, n_ops, mix=None, depth=0):
             elif r < 0.65:
                 ops.append({'k': 'tname', 'text': rng.text(rng.pick([1, 5, 31, 32, 33, 63]), multibyte=False),
                             'prev': rng.chance(0.3)})
-            elif r < 0.8:
+            elif r < 0.74:
                 ops.append(kernel.text_one('TRACE_STRING_PROC_EXIT', rng.ident()))
-            elif r < 0.72:
-                # the end of a thread's life as the kernel logs it - and the thread id lives on (ids are reused)
-                ops.append({'k': 'seq', 'ops': [
-                    {'k': 'one', 'name': 'TRACE_DATA_THREAD_TERMINATE', 'q': 0, 'a': [ctx.tid, ctx.tid, 0, 0]},
-                    {'k': 'one', 'name': 'TRACE_DATA_THREAD_TERMINATE_PID', 'q': 0, 'a': [ctx.new_pid(), rng.word(), 0, 0]}]})
+            elif r < 0.8:
+                # one half of an announcement pair whose other half is not in the capture (lost, or logged before it began):
+                # a data record that no string follows, a name string that no data record precedes
+                kind = rng.pick(['NEWTHREAD', 'EXEC'])
+                if rng.chance(0.5):
+                    ops.append({'k': 'one', 'name': 'TRACE_DATA_' + kind, 'q': 0,
+                                'a': [900000 + ctx.new_pid(), ctx.new_pid(), rng.pick([0, 1]), rng.word()] if kind == 'NEWTHREAD' else [ctx.new_pid(), rng.word(), rng.word(), 0]})
+                else:
+                    ops.append(kernel.text_one('TRACE_STRING_' + kind, rng.ident()))
             elif r < 0.9:
                 victim = rng.pick(ctx.peers) if ctx.peers and rng.chance(0.6) else 800000 + rng.randrange(50)
                 ops.append({'k': 'one', 'name': 'TRACE_DATA_THREAD_TERMINATE', 'q': rng.pick([0, 0, 3]),
@@ -545,6 +549,12 @@ def gen_logs(rng, n, tids=None, with_tai=False):
         if with_tai and rng.chance(0.3):
             ev['tai'] = rng.randrange(0, 1 << 31)
         events.append(ev)
+    if events and rng.chance(0.5):
+        # one device, one time zone: every record carries the same time-zone values (and sometimes the same date)
+        for ev in events[1:]:
+            ev['utz'] = dict(events[0]['utz'])
+            if 'lsutz' in ev and rng.chance(0.5):
+                ev['lsutz'] = dict(ev['utz'])
     return events, strings
 
 
@@ -554,6 +564,11 @@ def gen_writer(rng, version, threads, nrec_hint=0, logs=True, with_tai=False):
         w['is64'] = rng.pick([1, 1, 0, 0xffffffff])
         w['freq'] = rng.pick([24000000, 0, 1, 1000000000, (1 << 64) - 1])
         w['pad'] = rng.pick([0, 0, 1, 7, 8, 63, 64, 128, rng.randint(0, 300), 4096 - 0x120 % 4096 if rng.chance(0.1) else 0])
+        if rng.chance(0.5):
+            # the header words no reader interprets hold whatever the kernel left there (a time of day, garbage, all ones)
+            w['hdr12'] = rng.pick([rng.randbytes(12), b'\xff' * 12, rng.randbytes(8) + b'\xff\xff\xff\x7f', b'\x00' * 8 + rng.randbytes(4)]).hex()
+        if rng.chance(0.3):
+            w['hdr256'] = rng.randbytes(rng.pick([1, 16, 256])).hex()
         return w
     w['chunks'] = sorted(rng.randrange(0, nrec_hint + 1) for _ in range(rng.randint(0, 4)))
     def partial(tag):
@@ -588,7 +603,7 @@ def gen_writer(rng, version, threads, nrec_hint=0, logs=True, with_tai=False):
                 if s not in all_strings:
                     all_strings.append(s)
                 remap[i] = all_strings.index(s)
-            logblocks.append({'kind': 'logs', 'payload': {'Events': _reindex(evs, remap)}})
+            logblocks.append({'kind': 'logs', 'payload': {'Events': _reindex(evs, remap)}, 'share': rng.chance(0.5)})
         # scramble indices so that index != position
         perm = list(range(len(all_strings)))
         rng.shuffle(perm)
@@ -757,14 +772,32 @@ def block_payload(b, fmt):
         return b['text'].encode()
     if b['kind'] == 'unknown':
         return bytes.fromhex(b['hex'])
-    return writer.plist_bytes(unjson(b['payload']), fmt)
+    obj = unjson(b['payload'])
+    if b.get('share') and b['kind'] == 'logs':
+        # a writer that stores equal sub-objects once: every equal time-zone / date / loss dictionary (and equal backtrace frame)
+        # is the same stored object, referenced from every record that carries it
+        seen = {}
+
+        def intern(v):
+            key = repr(sorted(v.items())) if isinstance(v, dict) else None
+            if key is None:
+                return v
+            return seen.setdefault(key, v)
+        for ev in obj.get('Events', []):
+            for k_ in ('utz', 'lsutz', 'leutz', 'ud', 'lsud', 'leud', 'lc'):
+                if isinstance(ev.get(k_), dict):
+                    ev[k_] = intern(ev[k_])
+            if isinstance(ev.get('bt'), list):
+                ev['bt'] = [intern(fr) if isinstance(fr, dict) else fr for fr in ev['bt']]
+    return writer.plist_bytes(obj, fmt)
 
 
 def build_file(w, record_bytes):
     """writer spec + list of 64-byte records -> (bytes, layout)."""
     tm = tmap_bytes(w.get('tmap', []))
     if w['version'] == 2:
-        return writer.write_v2(tm, w.get('pad', 0), record_bytes, is64=w.get('is64', 1), freq=w.get('freq', 24000000))
+        return writer.write_v2(tm, w.get('pad', 0), record_bytes, is64=w.get('is64', 1), freq=w.get('freq', 24000000),
+                               opaque12=bytes.fromhex(w.get('hdr12', '')), opaque256=bytes.fromhex(w.get('hdr256', '')))
     cuts = sorted(min(max(c, 0), len(record_bytes)) for c in w.get('chunks', []))
     chunks = []
     prev = 0
